@@ -16,6 +16,11 @@ For every file
               then r = ELF(bytes(elf)) must show the section table, the section contents, the segments, the symbol
               tables, the dynamic entries and the relocation tables of the *expected file* (= original bytes with
               that one byte changed), read by the same parser.
+  virt windows every run of 1..4 PROGBITS sections of a linked file that follow each other in memory without a gap
+              (.got/.got.plt/.data, .rodata/.eh_frame_hdr/.eh_frame, ...): ONE write e.virt.set(start, data) over the whole
+              run, and over the run minus its first and last byte, with a distinct byte per position. The serialised file
+              must be the original with exactly the targeted file offsets patched, e.virt.get must read the bytes back
+              (before serialising and after re-parsing) and the re-parse must show the tables of the expected file.
   deviations  [thorough] every ELF-header field (and e_ident class/data/version/osabi) and every section-header
               field, +1 and -1 (mod field width): when the loader still accepts the deviated file (parse and build
               both return), parse -> build -> parse must be stable: the second parse returns, shows the same tables
@@ -537,6 +542,138 @@ def check_edit(ent, i, pos, xor, path, orig_view=None):
     return vs, outcome
 
 
+
+# ---------------------------------------------------------------------------------------------------------------
+# writes through the virtual-address view over windows of memory-adjacent PROGBITS sections
+
+MAX_WINDOW = 4
+SHF_ALLOC = 2
+
+
+def virt_windows(data):
+    """Every run of 1..MAX_WINDOW PROGBITS sections with contents that follow each other in memory without a gap
+    (sh_addr + sh_size of one == sh_addr of the next), such that every address of the run resolves to the intended
+    section (no earlier section of the table, like .tbss, overlaps it). Computed with the struct reader only."""
+    t = elfcorpus.read_tables(data)
+    secs = t["shdrs"]
+
+    def clean(i):
+        sh = secs[i]
+        if sh["type"] != 1 or not sh["flags"] & SHF_ALLOC or not sh["addr"] or not sh["size"]:
+            return False
+        if sh["offset"] + sh["size"] > len(data):
+            return False
+        for j, o in enumerate(secs):
+            if j != i and o["size"] and o["addr"] < sh["addr"] + sh["size"] and sh["addr"] < o["addr"] + o["size"] and (j < i or o["type"] == 1):
+                return False
+        return True
+
+    good = sorted((i for i in range(len(secs)) if clean(i)), key=lambda i: secs[i]["addr"])
+    out = []
+    for a in range(len(good)):
+        run = [good[a]]
+        out.append(list(run))
+        for b in range(a + 1, len(good)):
+            prev, cur = secs[run[-1]], secs[good[b]]
+            if prev["addr"] + prev["size"] != cur["addr"] or len(run) >= MAX_WINDOW:
+                break
+            run.append(good[b])
+            out.append(list(run))
+    return out, t
+
+
+def window_pattern(n):
+    """Distinct byte per position (no period below 251*256), never the value a shifted copy would put there."""
+    return bytes(((k * 89) + (k >> 8) * 7 + (k // 251) + 3) & 0xFF for k in range(n))
+
+
+def check_virt_window(ent, window, trim):
+    """One write e.virt.set(start, data) covering the sections @window (table indices, in address order), from
+    @trim bytes after the start of the first to @trim bytes before the end of the last."""
+    from miasm.loader.elf_init import ELF
+    _quiet()
+    data = ent["data"]
+    t = elfcorpus.read_tables(data)
+    secs = [t["shdrs"][i] for i in window]
+    start = secs[0]["addr"] + trim
+    stop = secs[-1]["addr"] + secs[-1]["size"] - trim
+    if stop - start < 1 or (len(window) > 1 and (secs[0]["size"] <= trim or secs[-1]["size"] <= trim)):
+        return [], "window-too-small"
+    case = {"k": "virtwin", "file": ent["name"], "sha256": ent["sha256"], "window": list(window), "trim": trim}
+    skel = "%d-sections:%s" % (len(window), "whole" if trim == 0 else "inner")
+    new = window_pattern(stop - start)
+    cap = cap_for(data)
+    what0 = "%s: e.virt.set(%#x, <%#x bytes>) over sections %r (%s)" % (
+        ent["name"], start, len(new), window, ", ".join("%#x+%#x" % (x["addr"], x["size"]) for x in secs))
+    e, err = _guarded_sure(lambda: ELF(data), cap)
+    if err:
+        return [], "base-parse-refused:%s" % err
+    _, err = _guarded_sure(lambda: e.virt.set(start, new) or True, cap)
+    if err:
+        return [], "refused:virt-window:%s" % err
+    # expected file: exactly the targeted file offsets patched
+    exp = bytearray(data)
+    pos = 0
+    for x in secs:
+        lo = max(start, x["addr"])
+        hi = min(stop, x["addr"] + x["size"])
+        exp[x["offset"] + lo - x["addr"]:x["offset"] + hi - x["addr"]] = new[pos:pos + hi - lo]
+        pos += hi - lo
+    exp = bytes(exp)
+    vs = []
+    back, err = _guarded_sure(lambda: e.virt.get(start, stop), cap)
+    if err or back != new:
+        k = next((q for q in range(min(len(back or b""), len(new))) if back[q] != new[q]), None) if not err else None
+        vs.append(violation("virt-window:readback-differs:%s" % skel, what0 + ": e.virt.get of the same range %s"
+                            % ("ends with " + err if err else "differs from what was written, first at +%r" % k), case))
+    if vs:
+        return vs, "violation"      # what follows would only restate the same wrong contents
+    out, err = _guarded_sure(lambda: bytes(e), cap)
+    if err:
+        return vs + [violation("virt-window:build-%s:%s" % (err, skel), what0 + ": bytes(elf) ends with %s" % err, case)], "violation"
+    if out != exp:
+        k = next((q for q in range(min(len(out), len(exp))) if out[q] != exp[q]), min(len(out), len(exp)))
+        which = next((n for n, x in enumerate(secs) if x["offset"] <= k < x["offset"] + x["size"]), None)
+        where = "section-%s-of-window" % (("1st", "2nd", "3rd", "4th")[which]) if which is not None else "outside-the-window"
+        vs.append(violation("virt-window:bytes-differ:%s:%s" % (skel, where),
+                            what0 + ": serialised file differs from the original with exactly that range patched, first at file offset "
+                            "%#x (%s): %r instead of %r" % (k, where, out[k:k + 6], exp[k:k + 6]), case))
+    if vs:
+        return vs, "violation"
+    got, err = _guarded_sure(lambda: ELF(out), cap)
+    if err:
+        vs.append(violation("virt-window:reparse-%s:%s" % (err, skel), what0 + ": re-parsing ends with %s" % err, case))
+    else:
+        rb, err = _guarded_sure(lambda: got.virt.get(start, stop), cap)
+        if err or rb != new:
+            vs.append(violation("virt-window:reparse-readback-differs:%s" % skel, what0 + ": after serialise + re-parse, virt.get of the range "
+                                "does not give the written bytes", case))
+        want, werr = _guarded_sure(lambda: view(ELF(exp)), cap)
+        gv, gerr = _guarded_sure(lambda: view(got), cap)
+        if not werr and not gerr:
+            d = diff_views(want, gv)
+            if d:
+                vs.append(violation("virt-window:tables-differ:%s:%s" % ("+".join(d), skel), what0 + ": re-parsed file differs from the expected file in %s" % ", ".join(d), case))
+    return vs, ("violation" if vs else "ok")
+
+
+def virtwin_stage(ent, res, add):
+    windows, _ = virt_windows(ent["data"])
+    for w in windows:
+        for trim in (0, 1):
+            try:
+                vs, outcome = check_virt_window(ent, w, trim)
+            except Exception as ex:
+                vs, outcome = [_caught("virt-window", ent, {"k": "virtwin", "file": ent["name"], "sha256": ent["sha256"],
+                                                           "window": list(w), "trim": trim}, ex)], "violation"
+            if outcome == "window-too-small":
+                continue
+            res["n"] += 1
+            if outcome in ("ok", "violation"):
+                res["nt"] += 1
+            _bump(res["outcomes"], "virt-window:%d-sections:%s" % (len(w), outcome))
+            add(vs)
+
 # ---------------------------------------------------------------------------------------------------------------
 # deviations
 
@@ -686,6 +823,7 @@ def _shard_inner(args):
         parts = [_shard_inner(("identity", name, None))]
         if secs:
             parts.append(_shard_inner(("edit", name, (secs, paths, xors))))
+        parts.append(_shard_inner(("virtwin", name, None)))
         if nsites:
             parts.append(_shard_inner(("deviation", name, (0, nsites))))
         res = parts[0]
@@ -720,6 +858,8 @@ def _shard_inner(args):
         res["stats"] = st
         _bump(res["outcomes"], "identity:" + ("violation" if vs else "ok"))
         add(vs)
+    elif kind == "virtwin":
+        virtwin_stage(ent, res, add)
     elif kind == "edit":
         from miasm.loader.elf_init import ELF
         _quiet()
@@ -792,6 +932,7 @@ def run(ctx):
             shards.append(("file", ent["name"], (secs, paths, xors, nsites)))
             continue
         shards.append(("identity", ent["name"], None))
+        shards.append(("virtwin", ent["name"], None))
         for a in range(0, len(secs), 4):
             shards.append(("edit", ent["name"], (secs[a:a + 4], paths, xors)))
         for a in range(0, nsites, 24):
@@ -908,6 +1049,8 @@ def replay(case):
     ent = elfcorpus.get(case["file"])
     if k == "identity":
         return check_identity(ent)[0]
+    if k == "virtwin":
+        return check_virt_window(ent, case["window"], case["trim"])[0]
     if k == "edit":
         return check_edit(ent, case["section"], case["pos"], case["xor"], case["path"])[0]
     if k == "deviation":
